@@ -267,8 +267,14 @@ CLAIMED = {
              "`dispatch_table`, `roundtrip_behavioral` (assign style, blackbox-free circuits without `x` constants whose "
              "node names do not look like the reader's synthetic gate names: same name/inputs/outputs and the read-back "
              "circuit refines the original in both directions, any gate mix and arity, cyclic circuits included). "
-             "Partial: assign style with blackboxes and escaped identifiers are covered by the correspondence/search only; "
-             "the theorems are at statement level (rendering + lexing are differential).",
+             "Text level inside the model: `render_parse` (for every writable circuit with identifier-like names, both "
+             "styles, blackboxes included: the model's lexer accepts the rendered text and its parser returns exactly the "
+             "statement list the writer produced) and `roundtrip_text` (`parseNetlist (write c)` returns the same graph); "
+             "their two extra hypotheses (at least one port; no pin-less blackbox) are shown necessary by closed "
+             "counterexamples — the writer emits `module m ();` / `ff u ();`, which the grammar rejects. "
+             "Partial: the refinement theorem for the assign style with blackboxes, and escaped identifiers, are covered by "
+             "the correspondence/search only; the tie between the model's lexer/parser and lark, and the module-extraction "
+             "regular expression, are differential.",
         note=TRUST + " `Writable`: lint-clean, plain identifiers not colliding with tie_0/tie_1/tie_x, registry and pin nodes agree.",
         ref="§4 C03"),
     "C11": dict(
